@@ -50,14 +50,16 @@ import (
 // ---------------------------------------------------------------- names
 
 var c08UserID = map[string]int{"": 0, "alice": 1, "bob": 2, "carol": 3, "admin": 7, "gadmin": 8, "autoadm": 9,
-	"svc-automation": 30, "svc-grp": 31, "newuser": 40, "ghost": 41, "dave": 4}
+	"svc-automation": 30, "svc-grp": 31, "newuser": 40, "ghost": 41, "dave": 4,
+	// names that merely resemble a configured administrator / automation identity / automation admin
+	"admin2": 5, "svc-automation2": 32, "autoadm2": 6}
 var c08GroupID = map[string]int{"km-admins": 50, "automation-grp": 51, "staff": 52,
 	// look-alikes of the configured names: none of them makes anybody administrator / automation identity
 	"km-admins-ro": 53, "km-admin": 54, "KM-ADMINS": 55, "automation-grp-x": 56, "automation": 57}
 var c08TokName = map[string]int{"": 0, "tok-a": 11, "tok-b": 12, "tok-c": 13, "renamed": 20}
 
 // users that have a row in every fixture
-var c08Existing = []string{"alice", "bob", "carol", "admin", "gadmin", "autoadm", "svc-automation"}
+var c08Existing = []string{"alice", "bob", "carol", "admin", "gadmin", "autoadm", "svc-automation", "admin2"}
 
 // the directory of the matrix environment (ground truth the harness wrote to groups.json)
 var c08Directory = map[string][]string{"gadmin": {"km-admins"}, "svc-grp": {"automation-grp"}, "alice": {"automation", "automation-grp-x", "staff"}, "bob": {"staff"},
@@ -817,6 +819,8 @@ func (r *c08Runner) matrix(levels []int, full bool) {
 	}
 	// carol is in groups whose names merely resemble the administrators' group
 	creds = append(creds, c08Cred{"session", "carol", AuthTypePassword | AuthTypeU2F}, c08Cred{"kmcert", "carol", 0})
+	// names resembling a configured administrator / automation administrator
+	creds = append(creds, c08Cred{"session", "admin2", AuthTypePassword | AuthTypeU2F}, c08Cred{"kmcert", "admin2", 0}, c08Cred{"session", "autoadm2", AuthTypePassword | AuthTypeU2F})
 	creds = append(creds, c08Cred{"ipcert", "svc-automation", 0}, c08Cred{"none", "", 0})
 	for _, op := range c08Ops {
 		for ci, cred := range creds {
@@ -825,7 +829,7 @@ func (r *c08Runner) matrix(levels []int, full bool) {
 				targets[2] = "gadmin"
 			}
 			if op == "RoleCert" {
-				targets = []string{"svc-automation", "svc-grp", "alice", ""}
+				targets = []string{"svc-automation", "svc-grp", "alice", "svc-automation2", ""}
 			}
 			if cred.kind == "none" || cred.kind == "ipcert" {
 				targets = []string{"bob", ""}
@@ -913,7 +917,7 @@ func (r *c08Runner) sweeps(rng *mrand.Rand, thorough bool) {
 	// role certificates: who x identity x method x parameters
 	for _, cred := range []c08Cred{{"session", "alice", u2fL}, {"session", "admin", pw}, {"session", "gadmin", totpL}, {"session", "autoadm", pw},
 		{"kmcert", "autoadm", 0}, {"kmcert", "alice", 0}, {"session", "svc-automation", u2fL}, {"ipcert", "svc-automation", 0}, {"none", "", 0}} {
-		for _, id := range []string{"svc-automation", "svc-grp", "alice", "admin", "autoadm", "newuser", ""} {
+		for _, id := range []string{"svc-automation", "svc-grp", "alice", "admin", "autoadm", "newuser", "svc-automation2", ""} {
 			for _, post := range []bool{true, false} {
 				for _, pok := range []bool{true, false} {
 					r.run(&c08Cell{variant: c08VarTokens, cred: cred, post: post, op: "RoleCert", target: id, paramsOK: pok})
@@ -924,7 +928,7 @@ func (r *c08Runner) sweeps(rng *mrand.Rand, thorough bool) {
 	// seeded random cells over the whole space
 	n := 300
 	if thorough {
-		n = 4000
+		n = 2500
 	}
 	users := []string{"alice", "bob", "carol", "admin", "gadmin", "autoadm", "svc-automation", "svc-grp", "newuser", ""}
 	bits := []int{AuthTypePassword, AuthTypeFederated, AuthTypeU2F, AuthTypeSymantecVIP, AuthTypeTOTP, AuthTypeOkta2FA, AuthTypeBootstrapOTP, AuthTypeWebauthForCLI, AuthTypeFIDO2}
@@ -1035,7 +1039,9 @@ func (r *c08Runner) traces(rng *mrand.Rand, thorough bool) (cases, idx []string)
 		return gs
 	}
 	savedDB, savedLdap, savedCache := st.gitDB, st.Config.UserInfo.Ldap.LDAPTargetURLs, st.isAdminCache
-	defer func() { st.gitDB, st.Config.UserInfo.Ldap.LDAPTargetURLs, st.isAdminCache = savedDB, savedLdap, savedCache }()
+	defer func() {
+		st.gitDB, st.Config.UserInfo.Ldap.LDAPTargetURLs, st.isAdminCache = savedDB, savedLdap, savedCache
+	}()
 	var now time.Time
 	admincache.VerifSetClock(st.isAdminCache, func() time.Time { return now })
 	users := []string{"admin", "gadmin", "alice", "dave"}
@@ -1160,6 +1166,34 @@ func (r *c08Runner) traces(rng *mrand.Rand, thorough bool) (cases, idx []string)
 
 // ---------------------------------------------------------------- test
 
+type c08Shard struct {
+	name   string
+	offset int
+}
+
+// write `cases` as several list definitions <name>_0, <name>_1, ... of at most `size` elements
+func c08Shards(sb *strings.Builder, name, ty string, cases []string, size int) []c08Shard {
+	var out []c08Shard
+	for off := 0; off < len(cases) || off == 0; off += size {
+		end := off + size
+		if end > len(cases) {
+			end = len(cases)
+		}
+		n := fmt.Sprintf("%s_%d", name, len(out))
+		sb.WriteString(fmt.Sprintf("Definition %s : list %s := [\n %s].\n", n, ty, strings.Join(cases[off:end], ";\n ")))
+		out = append(out, c08Shard{n, off})
+	}
+	return out
+}
+
+func c08ShardMismatches(bad string, shards []c08Shard) string {
+	var parts []string
+	for _, sh := range shards {
+		parts = append(parts, fmt.Sprintf("mismatches_from %s %s %d", bad, sh.name, sh.offset))
+	}
+	return strings.Join(parts, " ++ ")
+}
+
 func c08CoqList(ids []string, m map[string]int) string {
 	var s []string
 	for _, x := range ids {
@@ -1231,7 +1265,7 @@ func TestVerif_C08(t *testing.T) {
 		moreLevels := []int{AuthTypePassword | AuthTypeOkta2FA, AuthTypePassword | AuthTypeBootstrapOTP, AuthTypeFederated, AuthTypePassword | AuthTypeFIDO2,
 			AuthTypeWebauthForCLI, AuthTypePassword | AuthTypeTOTP | AuthTypeU2F, AuthTypeAny, AuthTypePassword | AuthTypeFederated}
 		levels := quickLevels
-		if thorough {
+		if thorough && ei == 0 {
 			levels = append(levels, moreLevels...)
 		}
 		r.matrix(levels, ei == 0 || thorough)
@@ -1293,7 +1327,8 @@ func TestVerif_C08(t *testing.T) {
 	sb.WriteString("Definition cred_user (cr : cred) : N := match cr with NoCred => 0 | Session u _ => u | KMCert u => u | IPCert u => u end.\n")
 	sb.WriteString("Definition adm_of (c : cfg) (u : N) : bool := match raw_is_admin c u (dir_of u) with Some b => b | None => false end.\n")
 	sb.WriteString("Definition cell := (nat * N * cred * bool * op * N * option Z * N * proof * bool * resp * option store)%type.\n")
-	sb.WriteString("Definition cells : list cell := [\n " + strings.Join(allCases, ";\n ") + "].\n")
+	// shards: a single list literal of tens of thousands of cells overflows coqc's stack
+	cellShards := c08Shards(&sb, "cells", "cell", allCases, 3000)
 	sb.WriteString(`Definition bad_cell (x : cell) : bool :=
   let '(e, v, cr, post, o, tg, ix, nm, pr, pok, obs_resp, obs_store) := x in
   let c := cfg_of e in
@@ -1302,12 +1337,13 @@ func TestVerif_C08(t *testing.T) {
   let '(s', x') := step c (fixture v) r in
   negb (resp_eqb x' obs_resp && stores_agree universe s' (match obs_store with Some s => s | None => fixture v end)).
 `)
-	sb.WriteString("Definition c08_ncases := Eval vm_compute in length cells.\nPrint c08_ncases.\n")
-	sb.WriteString("Definition c08_mismatches := Eval vm_compute in mismatches bad_cell cells.\nPrint c08_mismatches.\n")
+	sb.WriteString(fmt.Sprintf("Definition c08_ncases := %d%%N.\nPrint c08_ncases.\n", len(allCases)))
+	sb.WriteString("Definition c08_mismatches := Eval vm_compute in (" + c08ShardMismatches("bad_cell", cellShards) + ").\nPrint c08_mismatches.\n")
 	// of the cells that passed authentication, how many the model allows / denies (printed for the evidence)
-	sb.WriteString("Definition trace_cases : list (bool * list (Z * Z * N * answer) * list bool) := [\n " + strings.Join(traceCases, ";\n ") + "].\n")
-	sb.WriteString("Definition c08_ntraces := Eval vm_compute in length trace_cases.\nPrint c08_ntraces.\n")
-	sb.WriteString("Definition c08_trace_mismatches := Eval vm_compute in mismatches (fun x : bool * list (Z * Z * N * answer) * list bool => let '(isnil, qs, obs) := x in negb (bools_eqb (verdicts five_minutes (if isnil then None else Some []) (map (fun q => let '(t, tp, u, a) := q in {| q_t := t; q_tp := tp; q_user := u; q_raw := raw_is_admin (cfg_of 0) u a |}) qs)) obs)) trace_cases.\nPrint c08_trace_mismatches.\n")
+	traceShards := c08Shards(&sb, "trace_cases", "(bool * list (Z * Z * N * answer) * list bool)", traceCases, 400)
+	sb.WriteString(fmt.Sprintf("Definition c08_ntraces := %d%%N.\nPrint c08_ntraces.\n", len(traceCases)))
+	sb.WriteString("Definition bad_trace (x : bool * list (Z * Z * N * answer) * list bool) : bool := let '(isnil, qs, obs) := x in negb (bools_eqb (verdicts five_minutes (if isnil then None else Some []) (map (fun q => let '(t, tp, u, a) := q in {| q_t := t; q_tp := tp; q_user := u; q_raw := raw_is_admin (cfg_of 0) u a |}) qs)) obs).\n")
+	sb.WriteString("Definition c08_trace_mismatches := Eval vm_compute in (" + c08ShardMismatches("bad_trace", traceShards) + ").\nPrint c08_trace_mismatches.\n")
 	if err := ioutil.WriteFile(filepath.Join(verifOut(), "CasesC08.v"), []byte(sb.String()), 0644); err != nil {
 		t.Fatal(err)
 	}
